@@ -6,6 +6,14 @@ send_msg with a callback.  Scheduling points: every virtual primitive and every 
 Connection.defunct / error_all_requests (and the functions nested in it) / error_all_cp_sessions / send_msg /
 process_msg and of the reactor's close().
 
+Second family (params['responses']): the reactor thread reads and processes the normal response of one or two
+outstanding requests (feed -> process_io_buffer -> process_msg, which takes the handler out of the request table)
+while ANOTHER thread fails the connection (defunct(OSError) as a heartbeat failure / a writer's socket error does,
+close() as a pool or cluster shutting down does, or both on two threads); every schedule with <= 2 preemptions,
+so that the failing thread can be stopped between any two lines of error_all_requests with the reactor thread
+stopped between any two lines of process_msg.  A request whose response is processed during the race may be
+completed by that response or by the connection error, exactly once.
+
 Oracle (per execution, after every thread including the error-callbacks thread has ended):
   * a send that STARTS when the connection is already marked (is_defunct or is_closed set: read by the client
     thread immediately before the call, no scheduling point in between) is refused with ConnectionShutdown;
@@ -69,6 +77,7 @@ class Rq(object):
         self.sent = None             # 'accepted' | 'ConnectionShutdown' | 'exc:...'
         self.marked_before = None    # connection already marked when the send started (racing sends only)
         self.own_fault = False       # the fault frame arrived on this request's stream
+        self.responded = False       # the reactor thread was handed this request's normal response during the race
 
 
 class HandlerRaises(RuntimeError):
@@ -88,7 +97,11 @@ def harness(params, prefix, part):
     """params: pre = handler behaviours ('returns' | 'raises') of the requests outstanding before the race,
     faults = one fault per fault thread ('defunct' | 'close' | 'garbage' | 'proto'; the frame faults hit the
     stream of the first pre request, whose handler returns), sends = handler behaviours of the racing sends
-    (one client thread each), threshold = CALLBACK_ERR_THREAD_THRESHOLD or None (driver default)."""
+    (one client thread each), threshold = CALLBACK_ERR_THREAD_THRESHOLD or None (driver default).
+    responses (optional) = indexes of pre requests whose normal RESULT frame the reactor thread reads and processes
+    (feed -> process_io_buffer -> process_msg), in that order, during the race; every fault then runs on a thread of
+    its own (a heartbeat failure / pool or cluster shutdown / a writer reporting a socket error), except a frame
+    fault, which the reactor thread reads after the responses."""
     from vt.world.vworld import World, VServer
     from vt.world import wire
     from vt import connlib
@@ -142,8 +155,27 @@ def harness(params, prefix, part):
                             data = wire.frame(VERSION, pre[0].stream, wire.OP_ERROR, wire.error(wire.ERR_PROTOCOL, 'Invalid value for opcode'))
                         conn.feed(data)
                 return body
-            for i, what in enumerate(params['faults']):
-                s.spawn(fault_thread(what), 'reactor' if i == 0 else 'closer')
+            responses = list(params.get('responses') or [])
+            faults = list(params['faults'])
+            if responses:
+                tail = None
+                if faults and faults[0] in ('garbage', 'proto'):
+                    tail = fault_thread(faults.pop(0))
+                if any(f in ('garbage', 'proto') for f in faults):
+                    raise HarnessError('frames are read by the one reactor thread: only the first fault may be a frame')
+
+                def reactor():
+                    for i in responses:
+                        pre[i].responded = True
+                        conn.feed(wire.frame(VERSION, pre[i].stream, wire.OP_RESULT, wire.result_void()))
+                    if tail is not None:
+                        tail()
+                s.spawn(reactor, 'reactor')
+                for i, what in enumerate(faults):
+                    s.spawn(fault_thread(what), 'failer%d' % i)
+            else:
+                for i, what in enumerate(faults):
+                    s.spawn(fault_thread(what), 'reactor' if i == 0 else 'closer')
             for rq in racing:
                 s.spawn(lambda rq=rq: send(rq), rq.name)
             s.run()
@@ -153,7 +185,7 @@ def harness(params, prefix, part):
         finally:
             Connection.CALLBACK_ERR_THREAD_THRESHOLD = saved
     data = {'layer': 'sched', 'params': params, 'prefix': s.choices()}
-    cls = '+'.join(params['faults'])
+    cls = '+'.join(params['faults']) + ('/while-processing-response' if params.get('responses') else '')
     tag = 't%s' % params['threshold'] if params.get('threshold') else 'inline'
     if s.failure:
         part.violation('C10/sched/%s/%s' % (s.failure[0], cls), '%s; case %r' % (s.failure[1], data), data)
@@ -169,7 +201,7 @@ def harness(params, prefix, part):
 
     def viol(fp, what):
         part.violation('C10/sched/%s' % fp, '%s; flags (defunct, closed)=%r; requests %r; case %r' % (
-            what, flags, [(r.name, r.behaviour, r.sent, r.marked_before, r.calls) for r in pre + racing], data), data)
+            what, flags, [(r.name, r.behaviour, r.sent, r.marked_before, r.responded, r.calls) for r in pre + racing], data), data)
     for r in pre + racing:
         kind = 'racing-send' if r in racing else 'outstanding'
         n = len(r.calls)
@@ -183,7 +215,8 @@ def harness(params, prefix, part):
                 viol('invoked-twice/%s/after-%s/%s' % (kind, cls, tag), '%s handler invoked %d times: %r' % (r.name, n, r.calls))
             else:
                 c = r.calls[0]
-                ok = c in ('ConnectionShutdown', 'ConnectionException') or (r.own_fault and (c.startswith('exc:') or c == 'ErrorMessage'))
+                ok = c in ('ConnectionShutdown', 'ConnectionException') or (r.own_fault and (c.startswith('exc:') or c == 'ErrorMessage')) \
+                    or (r.responded and c == 'resp:ResultMessage')     # its response won the race: no longer outstanding
                 if not ok:
                     viol('failed-with-non-connection-error/%s/after-%s' % (kind, cls), '%s completed with %s' % (r.name, c))
         elif r.sent == 'ConnectionShutdown':
@@ -196,7 +229,7 @@ def harness(params, prefix, part):
     part.outcome(('sched', cls, tag, tuple(r.sent for r in racing), tuple(sorted(set(c for r in pre + racing for c in r.calls)))))
     if any(p.chosen for p in s.trace):
         part.mark_nontrivial(repr((params, s.choices())))
-    if any(r.sent == 'accepted' for r in racing):
+    if any(r.sent == 'accepted' for r in racing) or any(r.responded and r.calls == ['resp:ResultMessage'] for r in pre):
         part.sample({'sched_case': params, 'choices': s.choices(), 'requests': [(r.name, r.sent, r.calls) for r in pre + racing]}, limit=1)
     return s
 
@@ -212,6 +245,7 @@ def configs(thorough):
     out.append(({'pre': [R, R, R], 'faults': ['defunct'], 'sends': [R], 'threshold': 2}, 1))
     out.append(({'pre': [R, R], 'faults': ['defunct', 'close'], 'sends': [R]}, 1))
     out.append(({'pre': [R], 'faults': ['defunct'], 'sends': [R, R]}, 1))
+    out.extend(response_configs(thorough))
     if thorough:
         for fault in ('defunct', 'close', 'garbage', 'proto'):
             out.append(({'pre': [R, R], 'faults': [fault], 'sends': [R]}, 2))
@@ -221,6 +255,26 @@ def configs(thorough):
                 out.append(({'pre': [R, R], 'faults': [fault, 'close'], 'sends': [R]}, 1))
         out.append(({'pre': [R], 'faults': ['defunct'], 'sends': [R, X]}, 2))      # three threads, two preemptions
         out.append(({'pre': [], 'faults': ['close'], 'sends': [R]}, 3))
+    return out
+
+
+def response_configs(thorough):
+    """the reactor thread processes the response of an outstanding request while another thread fails the connection"""
+    out = []
+    R, X = 'returns', 'raises'
+    for fault in ('defunct', 'close'):
+        out.append(({'pre': [R, R], 'responses': [0], 'faults': [fault], 'sends': []}, 2))
+    out.append(({'pre': [R, X, R], 'responses': [1], 'faults': ['defunct'], 'sends': []}, 2))
+    out.append(({'pre': [R, R, R], 'responses': [0], 'faults': ['defunct'], 'sends': [], 'threshold': 2}, 2))
+    out.append(({'pre': [R, R], 'responses': [1], 'faults': ['defunct', 'close'], 'sends': []}, 1))
+    out.append(({'pre': [R, R], 'responses': [0], 'faults': ['close'], 'sends': [R]}, 1))
+    if thorough:
+        for fault in ('defunct', 'close'):
+            out.append(({'pre': [X, R, R], 'responses': [0, 1], 'faults': [fault], 'sends': [], 'threshold': 2}, 2))
+            out.append(({'pre': [R, R], 'responses': [1], 'faults': [fault], 'sends': [X]}, 1))
+        out.append(({'pre': [R, X, R], 'responses': [1, 2], 'faults': ['defunct'], 'sends': []}, 2))
+        for frame in ('garbage', 'proto'):
+            out.append(({'pre': [R, R, R], 'responses': [1], 'faults': [frame, 'close'], 'sends': []}, 2))
     return out
 
 
